@@ -11,8 +11,9 @@ type LLDP struct {
 	TTL     TTLTLV
 }
 
+// Len: chassis and port TLVs are a 2-byte header, a subtype and their data; the TTL TLV is 4 bytes
 func (d *LLDP) Len() (n uint16) {
-	return 15
+	return 3 + uint16(len(d.Chassis.Data)) + 3 + uint16(len(d.Port.Data)) + 4
 }
 
 func (d *LLDP) Read(b []byte) (n int, err error) {
